@@ -50,7 +50,7 @@ REPRS = ["ONEONE", "ZERO", "CENTER", "TILDE"]
 
 
 def scenario_1d(tid, kind, grid, atoms, rng, lattice, unit, a_u=0, repr_name="ONEONE", fv=True, sigma_u=0, prior_grid=None,
-                pre_ops=()):
+                pre_ops=(), pre_trunc=None):
     from rpylib.distribution.sampling import SamplingMethod
     from rpylib.distribution.samplingfactory import create_q_vector
     from rpylib.model.levymodel.levymodel import LevyRepresentation
@@ -71,6 +71,10 @@ def scenario_1d(tid, kind, grid, atoms, rng, lattice, unit, a_u=0, repr_name="ON
     try:
         model = atomic.AtomLevyModel(atoms, sigma=sigma_u * U, a=a_u * U, representation=LevyRepresentation[repr_name],
                                      finite_variation=fv, unit=unit)
+        if pre_trunc is not None:
+            # the user's model IS the measure restricted to pre_trunc (public truncate_levy_measure): the chain restricts it
+            # further to its grid
+            model.truncate_levy_measure((pre_trunc[0] * U, pre_trunc[1] * U))
         for op in pre_ops:
             # the user's model went through drift queries / re-declarations before the chain is built; it ends in the
             # representation it was declared in (conversions are reversible: C10)
@@ -123,7 +127,16 @@ def scenario_1d(tid, kind, grid, atoms, rng, lattice, unit, a_u=0, repr_name="ON
     return {"tid": tid, "hdr": hdr, "ev": ev}
 
 
-def scenario_nd(tid, kind, grid, atoms, d, reprs, a_us, lattice=True, prior_grid=None):
+def scenario_1d_pretrunc(tid, grid, all_atoms, atoms, cut, rng, a_u, repr_name, fv):
+    """the model is built on all_atoms and truncated to `cut` by the user; the specification is told the measure `atoms`"""
+    t = scenario_1d(tid, "lattice1d:pretrunc", grid, all_atoms, rng, True, U, a_u=a_u, repr_name=repr_name, fv=fv, pre_trunc=cut)
+    t["hdr"]["atoms_u"] = [[[int(k)], int(w)] for k, w in atoms]
+    keep = {int(k) for k, _ in atoms}
+    t["hdr"]["atoms"] = [x for x, (k, _w) in zip(t["hdr"]["atoms"], all_atoms) if int(k) in keep]
+    return t
+
+
+def scenario_nd(tid, kind, grid, atoms, d, reprs, a_us, lattice=True, prior_grid=None, with_drift=True):
     from rpylib.distribution.sampling import SamplingMethod
     from rpylib.model.levymodel.levymodel import LevyRepresentation
     from rpylib.process.markovchain.markovchainlevycopula import MarkovChainLevyCopula
@@ -168,7 +181,7 @@ def scenario_nd(tid, kind, grid, atoms, d, reprs, a_us, lattice=True, prior_grid
         r = {"e": "Buckets", "b": b, "lam": exact_int(pad.intensity_of_jumps), "partial": 0}
         r["bad"] = count_bad(r)
         ev.append(r)
-        if lattice:
+        if lattice and with_drift:
             pinv.initialisation(product_for_init())
             drift = np.ravel(pinv.process_drift())
             dr = {"e": "Drift", "drift_u": [exact_int(float(x) / U, tol=1e-9) for x in drift], "eqvar_u2": 0}
@@ -224,6 +237,18 @@ def main():
         ci += 1
         traces.append(scenario_1d(tid(), "lattice1d:wide", grid, atoms, rng, True, U, a_u=rng.randint(-40, 40), repr_name=r,
                                   fv=fv, sigma_u=rng.choice([0, 8])))
+    # the user's model was already truncated (narrower than the grid on one side, wider on the other)
+    for rep in range(3 if quick else 10):
+        step = 16
+        nl, nr = rng.randint(2, 4), rng.randint(2, 4)
+        g = CTMCGrid(h=step * U, origin_coordinate=nl, axes=[np.array([j * step * U for j in range(-nl, nr + 1)])])
+        allat = atomic.atoms_everywhere(-nl * step - 20, nr * step + 20, rng, wmax=4)
+        cut = (-(nl - 1) * step - 6, nr * step + 12) if rep % 2 else (-nl * step - 12, (nr - 1) * step + 10)
+        atoms = [(k, w) for (k, w) in allat if cut[0] < k < cut[1]]           # what the user's model is
+        r, fv = combos[ci % len(combos)]
+        ci += 1
+        t = scenario_1d_pretrunc(tid(), g, allat, atoms, cut, rng, a_u=rng.randint(-20, 20), repr_name=r, fv=fv)
+        traces.append(t)
     # the model went through drift queries and re-declarations before the chain is built
     for rep in range(4 if quick else 16):
         step = 16
@@ -317,6 +342,15 @@ def main():
         atoms = atomic.joint_atoms_in_box([-32] * d, [32] * d, d, rng, 50, wmax=4)
         traces.append(scenario_nd(tid(), "copula2d:reuse", wide, atoms, d, [rng.choice(REPRS) for _ in range(d)],
                                   [rng.randint(-9, 9) for _ in range(d)], prior_grid=narrow))
+    # joint atoms also BEYOND the truncation box (in one or in all coordinates): they belong to no cell and not to the
+    # intensity (rates and intensity only; the drift of the margins is judged on measures supported by the box)
+    for rep in range(3 if quick else 8):
+        d, step = (2 if rep % 3 else 3), 16
+        axis = np.array([j * step * U for j in range(-1, 2)]) if d == 3 else np.array([j * step * U for j in range(-2, 3)])
+        grid = CTMCGrid(h=step * U, origin_coordinate=len(axis) // 2, axes=[axis] * d)
+        edge = int(round(axis[-1] / U))
+        atoms = atomic.joint_atoms_in_box([-edge - 24] * d, [edge + 24] * d, d, rng, 90, wmax=4)
+        traces.append(scenario_nd(tid(), f"copula{d}d:beyond", grid, atoms, d, ["ONEONE"] * d, [0] * d, with_drift=False))
     # ---- copula chains on grids with one distinct axis per dimension (user-built lattice grids, credit grids) --------
     for rep in range(3 if quick else 10):
         d = rng.choice([2, 2, 3])
